@@ -244,7 +244,14 @@ def run(rep):
         rep.hist('err.kind', impl if isinstance(impl, str) else 'value')
 
     # ------------------------------------------------------------ model vs code
-    out = common.run_driver(lines)
+    try:
+        out = common.run_driver(lines)
+    except common.ModelUnavailable as ex:
+        # no model: nothing of the correspondence can be compared; every oracle stream below (reference scale, accuracy
+        # against the ODE, two steps = one, monotone decrease) evaluates the property on the real code and runs regardless
+        out = []
+        rep.violation('model-unavailable', 'the Lean model of C15 could not be run (%s): beta/_fbeta1/as2pf were not compared with it; '
+                      'the oracle streams ran' % str(ex)[:300], dict(reason=str(ex)[:300]), found_input=False)
     worst = {}
     for line, m, o in zip(lines, meta, out):
         kind, impl = m['kind'], m['impl']
